@@ -60,7 +60,7 @@ CHECKS = {
              "string; (2) prov_to_dot transcribed as a structure of nodes/edges/clusters with the strings Graphviz's parser obtains; "
              "c15_one_node_per_element, c15_known_uri_reuses_node, attachAnnotation_spec. The real DOT text is given to Graphviz "
              "(dot -Tdot_json): acceptance is required for every option combination and direction, and the parsed graph is compared "
-             "with the model and with an independent structural specification.",
+             "with the model and with an independent structural specification. Props/C15B: the node map of the drawing state sends a URI to an existing node carrying that URI (MapOkD, kept by _get_node and every drawing step); c15_binary_relation_one_edge - a relation whose first two reference arguments are names, drawn plainly, adds exactly one edge, labelled with the relation, from a node carrying the first URI to a node carrying the second; c15_relation_through_blank_node - drawn as n-ary or annotated it adds a new point node b, the edges first-argument -> b (labelled, arrowhead none) and b -> second-argument, and everything else (further arguments, the annotation) only appends after them.",
         note=A_COMMON + " Graphviz's parser (not a Lean recogniser) is the judge of DOT validity (A-EXT); which of several prov:label "
              "values is displayed follows Python's set order and is not compared. The escaping itself needed a fix: commit.",
         technique="Lean 4 induction proofs on escaping functions + structure correspondence through Graphviz's own parser",
